@@ -420,12 +420,35 @@ def hasKeyOp (a b : Val) : EM Val :=
   | .jsonb _, .text _ => .ok (.bool false)
   | _, _ => .error (.typing "? operands")
 
-/-- `a @> b` on arrays -/
+def jsonIsScalar : Json → Bool
+  | .arr _ => false
+  | .obj _ => false
+  | _ => true
+
+/-- jsonb containment `a @> b` (8.14.3) for the one form the translator emits on property columns: both operands objects and every value of
+the RIGHT object a scalar (a parameterised property map `(n $props)`): true iff every pair of `b` occurs in `a` — same key, value equal as
+jsonb (a scalar never equals an array or an object: the "array contains a primitive" exception of the documentation applies at the top
+level only). Keys are assumed unique within an object, as jsonb stores them. Other operand forms: `none` (not modelled). -/
+def jsonContainsFlat (a b : Json) : Option Bool :=
+  match a, b with
+  | .obj xs, .obj ys =>
+    if ys.all (fun kv => jsonIsScalar kv.2) then
+      some (ys.all (fun kv => match Json.lookup kv.1 xs with
+        | some v => jsonCmp v kv.2 == some .eq
+        | none => false))
+    else none
+  | _, _ => none
+
+/-- `a @> b` on arrays, and on jsonb objects in the form `jsonContainsFlat` covers -/
 def containsOp (a b : Val) : EM Val :=
   match a, b with
   | .null, _ => .ok .null
   | _, .null => .ok .null
   | .arr xs, .arr ys => .ok (.bool (ys.all (arrHas xs)))
+  | .jsonb x, .jsonb y =>
+    match jsonContainsFlat x y with
+    | some r => .ok (.bool r)
+    | none => .error (.unmodelled "@>-jsonb-operands")
   | _, _ => .error (.unmodelled "@>-operands")
 
 def overlapOp (a b : Val) : EM Val :=
